@@ -370,3 +370,132 @@ Proof.
     apply andb_true_iff in H as [H _]. apply Nat.eqb_eq in H. exact H. }
   eapply (progress single g _ (infer_ranks g entries)); eauto.
 Qed.
+
+(* ------------------------------------------------------------------------------------------ *)
+(* Progress with writer preference *)
+
+Lemma can_step_wp_can_step g S : can_step_wp g S -> can_step g S.
+Proof. intros (i & t & c & t' & Hi & Ht & [Hm _]). exists i, t, c, t'. auto. Qed.
+
+Section ProgressWP.
+  Variable single : nat -> bool.
+  Variable g : graph.
+  Variable ls : assignment.
+  Variable rk : list (mutex * nat).
+  Hypothesis Hlen : length ls = length g.
+  Hypothesis Hnodes : check_nodes ls 0 g = true.
+  Hypothesis Howner : forallb (check_owner g) g = true.
+  Hypothesis Horder : order_ok_from rk ls 0 g = true.
+
+  (* a thread at a Lock/RLock is enabled (no incompatible holder) or somebody else holds the mutex *)
+  Lemma enabled_or_holder (S : list thread) i pc L nd m x :
+    nth_error S i = Some (At pc, L) -> nth_error g pc = Some nd -> n_instr nd = ILock m x ->
+    may_step g S i \/ exists j tj x', j <> i /\ nth_error S j = Some tj /\ In (m, x') (snd tj).
+  Proof.
+    intros Hi Hn Hins.
+    destruct (forall_or_exists (fun j (t : thread) => (j =? i)%nat || negb (blocked_by m x (snd t))) S 0%nat)
+      as [Hall|(j & tj & Hj & Hp)].
+    - left. unfold may_step. rewrite Hi, Hn, Hins. intros j t Hne Hj.
+      specialize (Hall j t Hj). cbn [Nat.add] in Hall.
+      apply orb_true_iff in Hall as [Hall|Hall]; [apply Nat.eqb_eq in Hall; congruence|].
+      apply not_blocked_compatible. destruct (blocked_by m x (snd t)); [discriminate|reflexivity].
+    - right. cbn [Nat.add] in Hp. apply orb_false_iff in Hp as [Hji Hb].
+      apply Nat.eqb_neq in Hji. apply negb_false_iff in Hb.
+      destruct (blocked_holds m x _ Hb) as [x' Hin]. exists j, tj, x'. auto.
+  Qed.
+
+  (* a thread that is not at a shared RLock is restricted by nothing more than may_step *)
+  Lemma wp_of_may_step (S : list thread) i pc L nd :
+    nth_error S i = Some (At pc, L) -> nth_error g pc = Some nd ->
+    (forall m, n_instr nd <> ILock m false) ->
+    may_step g S i -> can_step_wp g S.
+  Proof.
+    intros Hi Hn Hnot Hm. destruct (tstep_exists g pc L nd Hn) as [t' Ht].
+    exists i, (At pc, L), 0%nat, t'. split; [exact Hi|split; [exact Ht|]]. split; [exact Hm|].
+    rewrite Hi, Hn. destruct (n_instr nd) as [|f w|m [|]|m x]; try exact I. exfalso. apply (Hnot m). reflexivity.
+  Qed.
+
+  Lemma progress_wp_rank (S : list thread) : Inv single g ls S ->
+    forall k i pc L nd m x, nth_error S i = Some (At pc, L) -> nth_error g pc = Some nd ->
+      n_instr nd = ILock m x -> (list_max (map snd rk) - rank_of rk m <= k)%nat -> can_step_wp g S.
+  Proof.
+    intros HI. pose proof HI as [Hcov [Hcomp _]].
+    (* what to do with a thread j that holds m (so is live): it steps, or it waits for a mutex of higher rank *)
+    assert (Hholder : forall k, (forall i pc L nd m x, nth_error S i = Some (At pc, L) -> nth_error g pc = Some nd ->
+                n_instr nd = ILock m x -> (list_max (map snd rk) - rank_of rk m <= k)%nat -> can_step_wp g S) ->
+              forall m j tj x', (list_max (map snd rk) - rank_of rk m <= Datatypes.S k)%nat ->
+                nth_error S j = Some tj -> In (m, x') (snd tj) -> can_step_wp g S).
+    { intros k IH m j [[pcj|] Lj] x' Hk Hj Hin; cbn [snd] in Hin.
+      2: { pose proof (Hcov j _ Hj) as T. cbn in T. subst Lj. destruct Hin. }
+      pose proof (Hcov j _ Hj) as Tj. destruct (tinv_node g ls Hlen pcj Lj Tj) as [ndj Hnj].
+      destruct (n_instr ndj) as [|fj wj|mj xj|mj xj] eqn:Hinsj.
+      1, 2, 4: apply (wp_of_may_step S j pcj Lj ndj Hj Hnj); [intros m0; rewrite Hinsj; discriminate|];
+        unfold may_step; rewrite Hj, Hnj, Hinsj; exact I.
+      cbn [tinv] in Tj.
+      pose proof (order_ok_nth rk ls g 0 pcj ndj mj xj Lj Horder Hnj Hinsj Tj) as Hr.
+      rewrite forallb_forall in Hr. specialize (Hr _ Hin). cbn [fst] in Hr. apply Nat.ltb_lt in Hr.
+      pose proof (rank_le_max rk mj) as Hmax.
+      apply (IH j pcj Lj ndj mj xj Hj Hnj Hinsj). lia. }
+    assert (Hzero : forall m j tj x', (list_max (map snd rk) - rank_of rk m <= 0)%nat ->
+                nth_error S j = Some tj -> In (m, x') (snd tj) -> can_step_wp g S).
+    { intros m j [[pcj|] Lj] x' Hk Hj Hin; cbn [snd] in Hin.
+      2: { pose proof (Hcov j _ Hj) as T. cbn in T. subst Lj. destruct Hin. }
+      pose proof (Hcov j _ Hj) as Tj. destruct (tinv_node g ls Hlen pcj Lj Tj) as [ndj Hnj].
+      destruct (n_instr ndj) as [|fj wj|mj xj|mj xj] eqn:Hinsj.
+      1, 2, 4: apply (wp_of_may_step S j pcj Lj ndj Hj Hnj); [intros m0; rewrite Hinsj; discriminate|];
+        unfold may_step; rewrite Hj, Hnj, Hinsj; exact I.
+      cbn [tinv] in Tj.
+      pose proof (order_ok_nth rk ls g 0 pcj ndj mj xj Lj Horder Hnj Hinsj Tj) as Hr.
+      rewrite forallb_forall in Hr. specialize (Hr _ Hin). cbn [fst] in Hr. apply Nat.ltb_lt in Hr.
+      pose proof (rank_le_max rk mj) as Hmax. lia. }
+    induction k as [|k IH]; intros i pc L nd m x Hi Hn Hins Hk.
+    all: destruct (enabled_or_holder S i pc L nd m x Hi Hn Hins) as [Hm|(j & tj & x' & Hne & Hj & Hin)].
+    2: apply (Hzero m j tj x' Hk Hj Hin).
+    3: apply (Hholder k IH m j tj x' ltac:(lia) Hj Hin).
+    all: destruct x.
+    1, 3: apply (wp_of_may_step S i pc L nd Hi Hn); [intros m0; rewrite Hins; discriminate | exact Hm].
+    all: destruct (forall_or_exists (fun j (t : thread) => (j =? i)%nat || negb (at_lock_excl g m t)) S 0%nat)
+           as [Hall|(w & tw & Hw & Hp)].
+    1, 3: destruct (tstep_exists g pc L nd Hn) as [t' Ht];
+      exists i, (At pc, L), 0%nat, t'; split; [exact Hi|split; [exact Ht|]]; split; [exact Hm|];
+      rewrite Hi, Hn, Hins; intros j t Hne Hj; specialize (Hall j t Hj); cbn [Nat.add] in Hall;
+      apply orb_true_iff in Hall as [Hall|Hall]; [apply Nat.eqb_eq in Hall; congruence|];
+      destruct (at_lock_excl g m t); [discriminate|reflexivity].
+    all: cbn [Nat.add] in Hp; apply orb_false_iff in Hp as [Hwi Hwx];
+      apply Nat.eqb_neq in Hwi; apply negb_false_iff in Hwx;
+      destruct tw as [[pcw|] Lw]; unfold at_lock_excl in Hwx; cbn [fst] in Hwx; [|discriminate];
+      destruct (nth_error g pcw) as [ndw|] eqn:Hnw; [|discriminate];
+      destruct (n_instr ndw) as [|fw ww|mw [|]|mw xw] eqn:Hinsw; try discriminate;
+      apply N.eqb_eq in Hwx; subst mw;
+      destruct (enabled_or_holder S w pcw Lw ndw m true Hw Hnw Hinsw) as [Hmw|(j & tj & x' & Hne & Hj & Hin)].
+    1, 3: apply (wp_of_may_step S w pcw Lw ndw Hw Hnw); [intros m0; rewrite Hinsw; discriminate | exact Hmw].
+    - apply (Hzero m j tj x' Hk Hj Hin).
+    - apply (Hholder k IH m j tj x' ltac:(lia) Hj Hin).
+  Qed.
+
+  Lemma progress_wp (S : list thread) : Inv single g ls S -> live S -> can_step_wp g S.
+  Proof.
+    intros HI (i & pc & L & Hi). pose proof HI as [Hcov _].
+    destruct (tinv_node g ls Hlen pc L (Hcov i _ Hi)) as [nd Hn].
+    destruct (n_instr nd) as [|f w|m x|m x] eqn:Hins.
+    3: apply (progress_wp_rank S HI _ i pc L nd m x Hi Hn Hins (Nat.le_refl _)).
+    all: apply (wp_of_may_step S i pc L nd Hi Hn); [intros m0; rewrite Hins; discriminate|];
+      unfold may_step; rewrite Hi, Hn, Hins; exact I.
+  Qed.
+End ProgressWP.
+
+Lemma deadlock_free_wp_lemma (skip : field -> bool) (single : nat -> bool) (g : graph) (entries : list nat) :
+  analysis_ok skip single g entries = true ->
+  lock_order_ok g entries = true ->
+  forall S0, initial single g entries S0 ->
+  forall S, xsteps single g entries S0 S -> live S -> can_step_wp g S.
+Proof.
+  intros H Hord S0 Hinit S Hs Hlive.
+  pose proof (analysis_inv _ _ _ _ H S0 Hinit S Hs) as HI.
+  destruct (analysis_ok_parts _ _ _ _ H) as (He & Hn & Ho & Hp).
+  assert (Hlen : length (infer g entries) = length g).
+  { unfold analysis_ok, check_assignment in H.
+    apply andb_true_iff in H as [H _]. apply andb_true_iff in H as [H _]. apply andb_true_iff in H as [H _].
+    apply andb_true_iff in H as [H _]. apply Nat.eqb_eq in H. exact H. }
+  eapply (progress_wp single g _ (infer_ranks g entries)); eauto.
+Qed.
